@@ -668,6 +668,17 @@ impl Expression {
                 };
                 if next == '\\' {
                     let next = ps.next()?;
+                    // a backslash before a line terminator continues the literal on the next line
+                    match next {
+                        '\n' | '\u{2028}' | '\u{2029}' => continue,
+                        '\r' => {
+                            if ps.peek::<0>() == Some('\n') {
+                                ps.next();
+                            }
+                            continue;
+                        }
+                        _ => {}
+                    }
                     let ch = match next {
                         'r' => '\r',
                         'n' => '\n',
